@@ -84,11 +84,17 @@ def _execute(ctx):
     lend = scn["lend"]
     init = {k: D(v) for k, v in scn["init"].items()}
 
+    # a pair may have its own (coarser) precisions, set with set_pair_info; they take precedence over the symbols'
+    pinfo = {int(k): v for k, v in (scn.get("pair_info") or {}).items() if int(k) < npairs}
+
     def qpp(pi):
-        return prec[pq[pi]]
+        return pinfo[pi][1] if pi in pinfo else prec[pq[pi]]
+
+    def bpp(pi):
+        return pinfo[pi][0] if pi in pinfo else prec[pb[pi]]
 
     def uqp(pi):
-        return unit(prec[pq[pi]])
+        return unit(qpp(pi))
 
     async def main(loop):
         import basana as bs
@@ -158,6 +164,9 @@ def _execute(ctx):
         e = ex.Exchange(d, dict(init), liquidity_strategy_factory=liq_f, fee_strategy=fee_s, lending_strategy=ls)
         for sym, p in prec.items():
             e.set_symbol_precision(sym, p)
+        for pi_, (bp_o, qp_o) in pinfo.items():
+            e.set_pair_info(pairs[pi_], bs.PairInfo(base_precision=bp_o, quote_precision=qp_o))
+            ctx.probes["pair_specific_precision"] += 1
 
         # ------------------------------------------------------------ bars
         bars = {}
@@ -433,6 +442,61 @@ def _execute(ctx):
             ctx.states.add(hash((len(model_open), len(open_loans or ()), min(M["in_handler"], 4))) & 0xffffffff)
             return bal
 
+        async def margin_rule_explains_skip(lid, order, sym):
+            """Would the margin rule, evaluated the way basana evaluates it (interest of the loan being repaid both paid and
+            still counted as outstanding - the recorded finding D15), have vetoed repaying `lid` at its turn in the loop?
+            order: [(loan id, principal, interest dict, repaid?)] in the order of the loop. Only used to name the shape of
+            a mismatch that was already found; None when prices are missing."""
+            bal = await e.get_balances()
+            try:
+                open_now = await e.get_loans(is_open=True)
+            except errors.NoPrice:
+                return None
+            idx = [i for i, x in enumerate(order) if x[0] == lid][0]
+            p_l, intr_l = order[idx][1], order[idx][2]
+            later_repaid = [x for x in order[idx + 1:] if x[3]]
+            tot = {s_: b_.available + b_.hold for s_, b_ in bal.items()}
+            bor = {s_: b_.borrowed for s_, b_ in bal.items()}
+            interest = collections.defaultdict(D)
+            for l in open_now:
+                for s_, v in l.outstanding_interest.items():
+                    interest[s_] += v
+            for (_, amt, intr, _) in later_repaid:
+                tot[sym] = tot.get(sym, D(0)) + amt
+                bor[sym] = bor.get(sym, D(0)) + amt
+                for s_, v in intr.items():
+                    tot[s_] = tot.get(s_, D(0)) + v
+                    interest[s_] += v
+            tot[sym] = tot.get(sym, D(0)) - p_l
+            bor[sym] = bor.get(sym, D(0)) - p_l
+            for s_, v in intr_l.items():
+                tot[s_] = tot.get(s_, D(0)) - v
+            eq = F(0)
+            used = F(0)
+            for s_ in set(tot) | set(bor):
+                net = tot.get(s_, D(0)) - bor.get(s_, D(0))
+                if net > 0:
+                    v = conv(net, s_, QUOTE)
+                    if v is None:
+                        return None
+                    eq += v
+                if bor.get(s_, D(0)) > 0:
+                    c = cond_of(s_)
+                    v = conv(bor[s_], s_, QUOTE)
+                    if c is None or v is None:
+                        return None
+                    used += v * F(c.margin_requirement)
+            if used == 0:
+                return False
+            itot = F(0)
+            for s_, v in interest.items():
+                cv = conv(v, s_, QUOTE)
+                if cv is None:
+                    return None
+                itot += cv
+            level = eq / (used + itot) * 100
+            return 0 < level < 100
+
         async def check_largest_first_on_fill(bar_ev, fills, bal, open_loans, closed_loans):
             """C11 largest-first for an auto-repay order closed by a fill. Exact when it is the only order of its pair that
             was touched by this bar: the funds at the start of its repayment loop are then what is available now plus what
@@ -487,6 +551,10 @@ def _execute(ctx):
             shape = "largest-first"
             why = ""
             for lid in [l for l, _, _, _ in order if l in expect and l not in got][:1]:
+                if await margin_rule_explains_skip(lid, order, sym):
+                    shape = "margin-veto-of-affordable-repayment"
+                    why = "; at its turn the margin rule, counting the loan's own interest as still outstanding, vetoes the repayment"
+                    break
                 try:
                     await e.repay_loan(lid)
                     M["loans"].get(lid, {})["explained"] = True
@@ -511,7 +579,7 @@ def _execute(ctx):
             kind, side = o["kind"], o["side"]
             buy = side == "buy"
             lim, stp = o["lim"], o["stp"]
-            bp = prec[pb[o["pi"]]]
+            bp = bpp(o["pi"])
             qp = qpp(o["pi"])
             uq = uqp(o["pi"])
             if o["pi"] != pi_bar:
@@ -589,6 +657,7 @@ def _execute(ctx):
             # every order may spend its own reservation plus free funds: the orders of this pair are all funded,
             # whatever order they are processed in, if the free quote covers the sum of their possible shortfalls
             need = D(0)
+            need_of = {}
             dust = set()
             for o in cands:
                 pend = o["amt"] - o["filled_before_bar"]
@@ -599,11 +668,13 @@ def _execute(ctx):
                 else:
                     ubq = max(pend * br.high * pct / 100, minfee) + 2 * uq if fee["kind"] != "none" else D(0)
                 need += max(D(0), ubq - own)
+                need_of[o["id"]] = max(D(0), ubq - own)
                 # an order whose traded quote amount would round to nothing cannot trade at all
                 if pend * br.low * (1 - impact) < uq:
                     dust.add(o["id"])
             free_q = prevb[qs].available if qs in prevb else D(0)
-            ample = (not borrowed_any) and free_q >= need
+            # per order: only orders processed before it that actually traded can have used free funds
+            used_before = D(0)
             rem = total
             if len(cands) >= 2 and not inf:
                 ctx.probes["competing_orders_in_bar"] += 1
@@ -613,6 +684,9 @@ def _execute(ctx):
                 kind, side = o["kind"], o["side"]
                 buy = side == "buy"
                 acc = o["acc"]
+                ample = (not borrowed_any) and free_q >= used_before + need_of[o["id"]]
+                if got > 0:
+                    used_before += need_of[o["id"]]
                 eligible = acc is None or (when > acc if o["from_handler"] else when >= acc)
                 if kind in ("market", "stop") and eligible and o["last"] is not None and o["last"].is_open \
                         and not o["cancelled"]:
@@ -743,7 +817,7 @@ def _execute(ctx):
             pi = pi_ctx if (op["same_pair"] and pi_ctx is not None) else op["pair"] % npairs
             p = pairs[pi]
             b = pb[pi]
-            bp = prec[b]
+            bp = bpp(pi)
             qp = qpp(pi)
             kind, side = op["otype"], op["side"]
             lim, stp = resolve_prices(op, pi)
@@ -1043,6 +1117,10 @@ def _execute(ctx):
                     shape = "largest-first"
                     why = ""
                     for lid in [l for l, _, _ in cand if l in expect and l not in got][:1]:
+                        if await margin_rule_explains_skip(lid, [(l, a, i_, l in got) for l, a, i_ in cand], lf["sym"]):
+                            shape = "margin-veto-of-affordable-repayment"
+                            why = "; at its turn the margin rule, counting the loan's own interest as still outstanding, vetoes the repayment"
+                            break
                         try:
                             await e.repay_loan(lid)
                             M["loans"].get(lid, {})["explained"] = True
